@@ -20,6 +20,8 @@ pub struct Entry {
     pub alias_layers: u32,
     /// encode a random value and give its model
     pub sample: Option<fn(&mut Rng) -> (Vec<u8>, Val)>,
+    /// attribute kinds used by a generated definition (comma separated), empty for built-ins
+    pub tags: &'static str,
     /// generated definition (C03) rather than a built-in type expression (C04)
     pub derived: bool,
     /// part of the seed-independent core corpus
@@ -28,7 +30,7 @@ pub struct Entry {
 
 #[macro_export]
 macro_rules! entry {
-    ($t:ty, $sh:expr, $dp:expr, $al:expr, enc, $derived:expr, $core:expr) => {
+    ($t:ty, $sh:expr, $dp:expr, $al:expr, enc, $derived:expr, $core:expr, $tags:expr) => {
         $crate::corpus::Entry {
             text: stringify!($t),
             meta: || ::scale_info::meta_type::<$t>(),
@@ -40,11 +42,12 @@ macro_rules! entry {
                 let v = <$t as $crate::sample::Sample>::sample(r, 3);
                 (::scale::Encode::encode(&v), $crate::sample::Model::model(&v))
             }),
+            tags: $tags,
             derived: $derived,
             core: $core,
         }
     };
-    ($t:ty, $sh:expr, $dp:expr, $al:expr, noenc, $derived:expr, $core:expr) => {
+    ($t:ty, $sh:expr, $dp:expr, $al:expr, noenc, $derived:expr, $core:expr, $tags:expr) => {
         $crate::corpus::Entry {
             text: stringify!($t),
             meta: || ::scale_info::meta_type::<$t>(),
@@ -53,6 +56,7 @@ macro_rules! entry {
             deep: $dp,
             alias_layers: $al,
             sample: None,
+            tags: $tags,
             derived: $derived,
             core: $core,
         }
